@@ -100,7 +100,7 @@ impl expr::Expr
 			
 			expr::Expr::Slice(_, _, left_expr, right_expr, _) =>
 			{
-				let left = left_expr.try_eval_usize()? + 1;
+				let left = left_expr.try_eval_usize()?.checked_add(1)?;
 				let right = right_expr.try_eval_usize()?;
 
 				if right > left
